@@ -185,6 +185,24 @@ func (o *c17) roundTrip(storePath string, t *core.Tree, replay any, nontrivial b
 		o.viol("import.overwrote", "Init(prepared_db) changed a database that already held headers", replay, before, after)
 	}
 	_ = os.Remove(db)
+	// the same for a database that was started without an import before and holds only genesis,
+	// and for the exported store itself (stale/orphan headers included)
+	for _, src := range []string{core.Template(), storePath} {
+		o.seq++
+		tgt := filepath.Join(core.Scratch(), fmt.Sprintf("held%d.db", o.seq))
+		core.CopyFile(src, tgt)
+		before := core.Digest(rawDump(tgt))
+		_, err := importInto(tgt, file, true)
+		o.rep.Executions++
+		if after := core.Digest(rawDump(tgt)); after != before {
+			kind := "import.overwrote"
+			if src == core.Template() {
+				kind = "import.overwrote/genesis_only_store"
+			}
+			o.viol(kind, fmt.Sprintf("Init(prepared_db) changed a database that already held headers (%d rows before; err=%v)", len(rawDump(src)), err), replay, before, after)
+		}
+		_ = os.Remove(tgt)
+	}
 	return rows, file, true
 }
 
